@@ -26,7 +26,11 @@ def run_requests(requests):
         p = subprocess.run([DRIVER], stdin=fin, stdout=subprocess.PIPE, stderr=subprocess.PIPE)
     if p.returncode != 0:
         raise DriverError("driver exit %d: %s" % (p.returncode, p.stderr.decode()[-500:]))
-    lines = p.stdout.decode("utf-8").splitlines()
+    # one response per LF-terminated line: str.splitlines() would also cut at NEL, LS, PS, VT, FF … which the driver's
+    # JSON printer leaves unescaped inside strings
+    lines = p.stdout.decode("utf-8").split("\n")
+    if lines and lines[-1] == "":
+        lines.pop()
     if len(lines) != len(requests):
         raise DriverError("driver returned %d lines for %d requests" % (len(lines), len(requests)))
     return [json.loads(l) for l in lines]
